@@ -137,6 +137,10 @@ def X_subnodes(n):
         stack.extend(x.args)
 
 
+TECHNIQUE += '; two successive calls of every exported table function in one interpreter state with the argument array updated in place (arrays as mutable cells, closures and nonlocal state interpreted)'
+
+EXPLANATION += ' R09.6 every exported full table, called twice in one state -- the second time with the same array updated in place, and with a fresh array -- returns the table at the obliquity of that call; R09.4 a wrapper around a table is judged by what it returns.'
+
 def run(chk):
     from ..core.interp import PathExplorer
     repo = Repo(chk.repo)
